@@ -284,6 +284,14 @@ def ob_result_other(sim, seed):
         sect = Mesher().Mesh_2D(Domain(Point(), Point(0.1, 0.2)))
         beam = Models.Beam.Isotropic(3, Line(Point(0.1, 0.2, 0.3), Point(1.1, 1.5, 0.9)), sect, 210e3, v=0.3)
         s = Simulations.Beam(Mesher().Mesh_Beams([beam], elemType=ElemType.SEG3), Models.Beam.BeamStructure([beam]))
+    elif sim == "WeakForms":
+        from EasyFEA import Models, Simulations
+        from EasyFEA.FEM import Field, BiLinearForm
+        from . import patches
+        mesh = patches.two_element_mesh("QUAD4")
+        field = Field(mesh.groupElem, 2)
+        s = Simulations.WeakForms(mesh, Models.WeakForms(field, BiLinearForm(lambda u, v: u.grad.ddot(v.grad)), computeM=BiLinearForm(lambda u, v: u.dot(v))))
+        s.Solver_Set_Hyperbolic_Algorithm(dt=0.1)
     else:
         s = _mk(sim)
     if sim in ("Elastic", "Beam", "HyperElastic"):
@@ -327,6 +335,17 @@ def ob_result_other(sim, seed):
                 n += 1
                 if not np.array_equal(got[(key, True)].ravel(), full[:, d]):
                     raise Refuted(f"{sim}: '{key}' is not column {d} of 'displacement'", cex=dict(simulation=sim, name=key), signature=f"result:{sim}:component:{key}", replay=dict(confirmed=True))
+    # vector results named by a single letter (weak-form simulations: u, v, a) and their components
+    for base in ("u", "v", "a"):
+        if (base, True) not in got:
+            continue
+        full = got[(base, True)].reshape(Nn, -1)
+        for d, cn in enumerate("xyz"[:full.shape[1]]):
+            key = base + cn
+            if (key, True) in got:
+                n += 1
+                if not np.array_equal(got[(key, True)].ravel(), full[:, d]):
+                    raise Refuted(f"{sim}: '{key}' is not column {d} of '{base}'", cex=dict(simulation=sim, name=key), signature=f"result:{sim}:component:{key}", replay=dict(confirmed=True))
     return Verdict(DISCHARGED, backend="native run (run-time contracts)", sub=n)
 
 
@@ -345,7 +364,7 @@ def build(tier, seed):
     for dim in (2, 3):
         obs.append(Ob(f"C16.reactions.{dim}d", ob_reactions, (dim,), "X", ("EasyFEA/Simulations/_simu.py::_Simu.Solve",), bound="one loaded, constrained patch",
                       clause="reactions on the constrained boundary balance the applied loads", timeout=300))
-    for sim in ("Thermal", "Beam", "Beam3D", "PhaseField", "HyperElastic", "InElastic"):
+    for sim in ("Thermal", "Beam", "Beam3D", "PhaseField", "HyperElastic", "InElastic", "WeakForms"):
         obs.append(Ob(f"C16.result.{sim}", ob_result_other, (sim, seed), "X", (f"EasyFEA/Simulations/_{sim.lower().replace('3d','')}.py::{sim.replace('3D','')}.Result",), bound="one small mesh, one arbitrary state",
                       clause="every advertised result name is served; displacement components equal the columns of the vector result", timeout=300))
     obs.append(Ob("canary.indices", ob_indices, (2, True), "P", expect=REFUTED, timeout=300))
